@@ -2355,6 +2355,13 @@ PPL::Polyhedron::drop_some_non_integer_points(const Variables_Set* vars_p,
   PPL_ASSERT(con_sys.sys.OK());
 
   if (changed) {
+    if (has_pending_constraints()) {
+      // The generators are going to be invalidated:
+      // the pending constraints become ordinary constraints.
+      con_sys.unset_pending_rows();
+      con_sys.set_sorted(false);
+      clear_pending_constraints();
+    }
     if (is_necessarily_closed()) {
       con_sys.insert(Constraint::zero_dim_positivity());
     }
